@@ -84,7 +84,9 @@ mod imp {
                       ClosureBump(String, String) }
     #[derive(Clone, Debug, PartialEq)]
     /// home: the name the function was declared under (every call passes arg_of(home), also through a variable that holds it)
-    pub struct FnDef { pub home: String, pub tag: String, pub kind: FnKind }
+    pub struct FnDef { pub home: String, pub tag: String, pub kind: FnKind,
+                       /// written as a top-level lambda in a variable (`let mut NAME = fn(x) { .. }`) instead of `fn NAME(x) { .. }`
+                       pub lambda: bool }
 
     #[derive(Clone, Debug, PartialEq)]
     pub enum Stmt {
@@ -131,6 +133,9 @@ mod imp {
             Stmt::AddTo { name, k } => format!("{} = {} + {}", name, name, k),
             Stmt::Def { name, def } => { let pr = if def.tag.is_empty() { String::new() } else { format!("println(\"{}\"); ", def.tag) }; match &def.kind {
                 // (an empty tag: a function that prints nothing -- small and pure, what an inliner likes)
+                FnKind::AddK(k) if def.lambda => format!("let mut {} = fn(x) {{ {}return x + {} }}", name, pr, k),
+                FnKind::ReadG(g) if def.lambda => format!("let mut {} = fn(x) {{ {}return {} + x }}", name, pr, g),
+                FnKind::CallF(t, k) if def.lambda => format!("let mut {} = fn(x) {{ {}return {}({}) + {} }}", name, pr, t, arg_of(t), k),
                 FnKind::AddK(k) => format!("fn {}(x) {{ {}return x + {} }}", name, pr, k),
                 FnKind::ReadG(g) => format!("fn {}(x) {{ {}return {} + x }}", name, pr, g),
                 FnKind::BumpG(g) => format!("fn {}(x) {{ {}{} = {} + x; return {} }}", name, pr, g, g, g),
@@ -392,16 +397,16 @@ mod imp {
                     let t = self.pick(&callees);
                     if !mv.is_empty() && self.rng.chance(1, 2) {
                         let gname = self.pick(&mv); assigned_here.insert(gname.clone());
-                        return Some(Stmt::Def { name: name.clone(), def: FnDef { home: name.clone(), tag, kind: FnKind::ClosureBump(t, gname) } });
+                        return Some(Stmt::Def { name: name.clone(), def: FnDef { lambda: false, home: name.clone(), tag, kind: FnKind::ClosureBump(t, gname) } });
                     }
-                    return Some(Stmt::Def { name: name.clone(), def: FnDef { home: name.clone(), tag, kind: FnKind::Closure(t) } });
+                    return Some(Stmt::Def { name: name.clone(), def: FnDef { lambda: false, home: name.clone(), tag, kind: FnKind::Closure(t) } });
                 }
                 if !callees.is_empty() && self.rng.chance(1, 4) {
                     let name = self.fresh("c");
                     defined_here.insert(name.clone());
                     let tag = if self.rng.chance(1, 3) { String::new() } else { self.fresh("T") };
                     let t = self.pick(&callees);
-                    return Some(Stmt::Def { name: name.clone(), def: FnDef { home: name.clone(), tag, kind: FnKind::CallF(t, 0) } });
+                    return Some(Stmt::Def { name: name.clone(), def: FnDef { lambda: false, home: name.clone(), tag, kind: FnKind::CallF(t, 0) } });
                 }
                 // a function without `return` that mutates a global (names b<N>: never redefined, never a callee of c<N>)
                 if !mv.is_empty() && self.rng.chance(1, 6) {
@@ -409,13 +414,13 @@ mod imp {
                     defined_here.insert(name.clone());
                     let tag = self.fresh("T");
                     let gname = self.pick(&mv); assigned_here.insert(gname.clone());
-                    return Some(Stmt::Def { name: name.clone(), def: FnDef { home: name.clone(), tag, kind: FnKind::Bump0(gname) } });
+                    return Some(Stmt::Def { name: name.clone(), def: FnDef { lambda: false, home: name.clone(), tag, kind: FnKind::Bump0(gname) } });
                 }
                 // a function that recurses until the frame limit (names r<N>)
                 if self.rng.chance(1, 14) {
                     let name = self.fresh("r");
                     defined_here.insert(name.clone());
-                    return Some(Stmt::Def { name: name.clone(), def: FnDef { home: name.clone(), tag: String::new(), kind: FnKind::Loop } });
+                    return Some(Stmt::Def { name: name.clone(), def: FnDef { lambda: false, home: name.clone(), tag: String::new(), kind: FnKind::Loop } });
                 }
                 let fnames: Vec<String> = fs.iter().filter(|n| n.starts_with('f')).cloned().collect();
                 let name = if !fnames.is_empty() && self.rng.chance(1, 3) { self.pick(&fnames) } else { self.fresh("f") };
@@ -428,7 +433,7 @@ mod imp {
                     else if k < 6 { FnKind::ReadG(self.pick(&iv)) }
                     else if k < 8 && !mv.is_empty() { let gname = self.pick(&mv); assigned_here.insert(gname.clone()); FnKind::BumpG(gname) }
                     else { FnKind::Boom };
-                Some(Stmt::Def { name: name.clone(), def: FnDef { home: name.clone(), tag, kind } })
+                Some(Stmt::Def { name: name.clone(), def: FnDef { lambda: false, home: name.clone(), tag, kind } })
             } else if r < 47 {
                 // a variable that holds a function value: created from, or rebound to, what a function name denotes now
                 let srcs: Vec<String> = { let mut v: Vec<String> = self.o.fns.iter().filter(|(k, d)| k.starts_with('f') && matches!(d.kind, FnKind::AddK(_) | FnKind::ReadG(_) | FnKind::BumpG(_))).map(|(k, _)| k.clone()).collect(); v.sort(); v };
@@ -451,7 +456,7 @@ mod imp {
                 if appliers.is_empty() || (appliers.len() < 2 && self.rng.chance(1, 4)) {
                     let name = self.fresh("a");
                     defined_here.insert(name.clone());
-                    Some(Stmt::Def { name: name.clone(), def: FnDef { home: name.clone(), tag: String::new(), kind: FnKind::Apply } })
+                    Some(Stmt::Def { name: name.clone(), def: FnDef { lambda: false, home: name.clone(), tag: String::new(), kind: FnKind::Apply } })
                 } else if !fs.is_empty() {
                     let f = self.pick(&fs); let arg = self.arg_for(&f); Some(Stmt::PrintApply { a: self.pick(&appliers), f, arg })
                 } else { None }
@@ -477,7 +482,7 @@ mod imp {
             if first {
                 return Step::Input { stmts: vec![Stmt::Let { name: "zero".into(), mutable: true, val: Val::Int(0) },
                                                  Stmt::Let { name: "g0".into(), mutable: true, val: Val::Int(7) },
-                                                 Stmt::Def { name: "f0".into(), def: FnDef { home: "f0".into(), tag: "T0".into(), kind: FnKind::AddK(1) } }], expect: Expect::Ok };
+                                                 Stmt::Def { name: "f0".into(), def: FnDef { lambda: false, home: "f0".into(), tag: "T0".into(), kind: FnKind::AddK(1) } }], expect: Expect::Ok };
             }
             // the import of an input that was rejected at compile time must not have taken effect
             if let Some(st) = self.queued.pop() {
@@ -539,11 +544,12 @@ mod imp {
                 if self.rng.chance(1, 2) {
                     let f = self.fresh("f"); let c = self.fresh("c");
                     let (k1, k2) = (self.rng.range_i64(1, 20), self.rng.range_i64(21, 40));
-                    let d = |f: &str, k: i64| Stmt::Def { name: f.to_string(), def: FnDef { home: f.to_string(), tag: String::new(), kind: FnKind::AddK(k) } };
+                    let d = |f: &str, k: i64| Stmt::Def { name: f.to_string(), def: FnDef { lambda: false, home: f.to_string(), tag: String::new(), kind: FnKind::AddK(k) } };
                     self.queued.push(Step::Host { f: c.clone(), arg: arg_of(&c), cached: self.rng.chance(1, 2), extra: false });
                     self.queued.push(Step::Input { stmts: vec![Stmt::PrintCall { f: c.clone(), arg: arg_of(&c) }], expect: Expect::Ok });
                     self.queued.push(Step::Input { stmts: vec![d(&f, k2)], expect: Expect::Ok });
-                    return Step::Input { stmts: vec![d(&f, k1), Stmt::Def { name: c.clone(), def: FnDef { home: c.clone(), tag: String::new(), kind: FnKind::CallF(f.clone(), 0) } }], expect: Expect::Ok };
+                    let lam = self.rng.chance(1, 2);
+                    return Step::Input { stmts: vec![d(&f, k1), Stmt::Def { name: c.clone(), def: FnDef { lambda: lam, home: c.clone(), tag: String::new(), kind: FnKind::CallF(f.clone(), 0) } }], expect: Expect::Ok };
                 } else {
                     let gname = self.fresh("g"); let f = self.fresh("f");
                     let (v1, v2) = (self.rng.range_i64(-50, 0), self.rng.range_i64(1, 50));
@@ -551,7 +557,7 @@ mod imp {
                     self.queued.push(Step::Input { stmts: vec![Stmt::PrintCall { f: f.clone(), arg: arg_of(&f) }], expect: Expect::Ok });
                     self.queued.push(Step::Input { stmts: vec![Stmt::Let { name: gname.clone(), mutable: false, val: Val::Int(v2) }], expect: Expect::Ok });
                     return Step::Input { stmts: vec![Stmt::Let { name: gname.clone(), mutable: false, val: Val::Int(v1) },
-                                                     Stmt::Def { name: f.clone(), def: FnDef { home: f.clone(), tag: String::new(), kind: FnKind::ReadG(gname) } }], expect: Expect::Ok };
+                                                     Stmt::Def { name: f.clone(), def: FnDef { lambda: self.rng.chance(1, 2), home: f.clone(), tag: String::new(), kind: FnKind::ReadG(gname) } }], expect: Expect::Ok };
                 }
             }
             // directed: a closure ESCAPES from a function that then fails (stored in a global); later calls reuse the registers
@@ -582,7 +588,7 @@ mod imp {
                 if !fnames.is_empty() {
                     let f = self.pick(&fnames);
                     let tag = self.fresh("T");
-                    let newdef = FnDef { home: f.clone(), tag, kind: FnKind::AddK(self.rng.range_i64(1, 20)) };
+                    let newdef = FnDef { lambda: false, home: f.clone(), tag, kind: FnKind::AddK(self.rng.range_i64(1, 20)) };
                     let junk = self.fresh("junk");
                     let mut seq = vec![Step::Gc(true), Step::Input { stmts: vec![Stmt::Def { name: f.clone(), def: newdef }], expect: Expect::Ok },
                                        Step::Input { stmts: vec![Stmt::Let { name: junk, mutable: true, val: Val::Str(self.fresh("s")) }, Stmt::PrintLit { text: self.fresh("p") }], expect: Expect::Ok },
@@ -616,7 +622,7 @@ mod imp {
                     let (k, t) = ks[self.rng.below(ks.len() as u64) as usize].clone();
                     let a = self.pick(&appliers);
                     let tag = self.fresh("T");
-                    let newdef = FnDef { home: t.clone(), tag, kind: FnKind::AddK(self.rng.range_i64(1, 20)) };
+                    let newdef = FnDef { lambda: false, home: t.clone(), tag, kind: FnKind::AddK(self.rng.range_i64(1, 20)) };
                     let arg = arg_of(&k);
                     let mut stmts = vec![Stmt::Def { name: t.clone(), def: newdef }, Stmt::PrintApply { a: a.clone(), f: k.clone(), arg }];
                     if self.rng.chance(1, 2) { stmts.push(Stmt::PrintApply { a, f: k.clone(), arg }); }
@@ -988,8 +994,8 @@ mod imp {
                                     Stmt::Let { name, val, .. } => s_body.push(format!("ISet {}%N (VInt {})", names.id(name), zc(code_of_val(val)))),
                                     Stmt::SetLit { name, val } => s_body.push(format!("ISet {}%N (VInt {})", names.id(name), zc(*val))),
                                     Stmt::AddTo { name, k } => s_body.push(format!("IAdd {}%N {}", names.id(name), zc(*k))),
-                                    Stmt::Def { name, def } => match unit_lay.get(name).cloned().or_else(|| if matches!(def.kind, FnKind::Closure(_) | FnKind::ClosureBump(..)) { layout_of_global(&vm, name) } else { None }) {
-                                        Some(l) => { let l = &l; if matches!(def.kind, FnKind::Closure(_) | FnKind::ClosureBump(..)) { fn_lay.insert(name.clone(), l.clone()); } let ls = sx.layout(l, &mut names, &mut problems); let (ar, b) = fn_body(name, def, &mut names); let fid = sx.add_fn(ls, ar, b);
+                                    Stmt::Def { name, def } => match unit_lay.get(name).cloned().or_else(|| if def.lambda || matches!(def.kind, FnKind::Closure(_) | FnKind::ClosureBump(..)) { layout_of_global(&vm, name) } else { None }) {
+                                        Some(l) => { let l = &l; if def.lambda || matches!(def.kind, FnKind::Closure(_) | FnKind::ClosureBump(..)) { fn_lay.insert(name.clone(), l.clone()); } let ls = sx.layout(l, &mut names, &mut problems); let (ar, b) = fn_body(name, def, &mut names); let fid = sx.add_fn(ls, ar, b);
                                                      s_body.push(format!("IDef {}%N {}%N", names.id(name), fid)); }
                                         None => sx.fail(format!("no nested function {}", name)),
                                     },
